@@ -55,7 +55,7 @@ func (encryptor *QueryDataEncryptor) GetQueryEncryptionSettings() []*base.QueryD
 	return encryptor.querySelectSettings
 }
 
-// encryptInsertQuery encrypt data in insert query in VALUES and ON DUPLICATE KEY UPDATE statements
+// encryptInsertQuery encrypt data in insert query in VALUES and ON CONFLICT ... DO UPDATE SET statements
 func (encryptor *QueryDataEncryptor) encryptInsertQuery(ctx context.Context, insert *pg_query.InsertStmt, bindPlaceholders map[int]config.ColumnEncryptionSetting) (bool, error) {
 	tableName := insert.Relation.GetRelname()
 	schema := encryptor.schemaStore.GetTableSchema(tableName)
@@ -130,18 +130,27 @@ func (encryptor *QueryDataEncryptor) encryptInsertQuery(ctx context.Context, ins
 		}
 	}
 
-	//	if len(insert.OnDup) > 0 {
-	//		onDupChanged, err := encryptor.encryptUpdateExpressions(
-	//			ctx,
-	//			sqlparser.UpdateExprs(insert.OnDup),
-	//			insert.Table,
-	//			base.AliasToTableMap{insert.Table.Name.String(): insert.Table.Name.String()},
-	//			bindPlaceholders)
-	//		if err != nil {
-	//			return changed, err
-	//		}
-	//		changed = changed || onDupChanged
-	//	}
+	// The assignments of ON CONFLICT ... DO UPDATE SET name their columns themselves:
+	//
+	//     ... ON CONFLICT (id) DO UPDATE SET column = 'static value'
+	//
+	// (placeholders of the clause are mapped to their columns in getInsertPlaceholders)
+	for _, target := range insert.GetOnConflictClause().GetTargetList() {
+		resTarget := target.GetResTarget()
+		if resTarget == nil {
+			continue
+		}
+		expr := resTarget.GetVal().GetAConst()
+		if resTarget.GetVal().GetTypeCast() != nil {
+			expr = resTarget.GetVal().GetTypeCast().GetArg().GetAConst()
+		}
+		if changedValue, err := encryptor.encryptExpression(ctx, expr, schema, resTarget.GetName()); err != nil {
+			logrus.WithField(logging.FieldKeyEventCode, logging.EventCodeErrorEncryptorCantEncryptExpression).WithError(err).Errorln("Can't encrypt expression")
+			return changed, err
+		} else if changedValue {
+			changed = true
+		}
+	}
 
 	return changed, nil
 }
